@@ -1,4 +1,5 @@
 import ElaVerif.Model.SharedRng
+import ElaVerif.Lemmas.SharedRng
 import ElaVerif.Model.Reach
 import ElaVerif.Gen.C24
 /-!
@@ -193,6 +194,32 @@ theorem C24_sorted_unique (l₁ l₂ : List Producer)
   C24_sorted_order_det l₁ l₂ (fun a b _ _ hab hba => C24_before_total a b hab hba) h₁ h₂ hp
 
 example : [Producer.mk 9 [1], ⟨5, [2]⟩, ⟨5, [3]⟩].Pairwise (fun a b => ¬ before b a = true) := by decide
+
+/-- **Checkpoint notification order**: the order in which the manager lets the CR state, the DPoS
+    state, the tx pool … process a block is the same for every order in which the registered set
+    comes out of the Go map — provided the priorities are pairwise distinct; when two tie the model
+    answers `none` (the real order then follows map iteration). -/
+theorem C24_checkpoint_order_det (l₁ l₂ : List (String × Nat)) (hp : l₁.Perm l₂) :
+    checkpointOrder l₁ = checkpointOrder l₂ := by
+  unfold checkpointOrder
+  have hn : (l₁.map (·.2)).Nodup ↔ (l₂.map (·.2)).Nodup := (hp.map _).nodup_iff
+  by_cases h1 : (l₁.map (·.2)).Nodup
+  · have h2 := hn.1 h1
+    simp only [h1, h2, ↓reduceIte]
+    congr 2
+    apply List.Perm.eq_of_pairwise (le := fun a b => a.2 < b.2)
+    · intro a b _ _ hab hba; omega
+    · exact sort_sorted l₁ h1
+    · exact sort_sorted l₂ h2
+    · exact (sort_perm l₁).trans (hp.trans (sort_perm l₂).symm)
+  · have h2 : ¬ (l₂.map (·.2)).Nodup := fun h => h1 (hn.2 h)
+    simp [h1, h2]
+
+/-- the priorities of all checkpoint implementations of the module are pairwise distinct
+    (regenerated from the `Priority()` methods) -/
+theorem C24_gen_checkpoint_priorities :
+    (Gen.C24.checkpointPriorities.map (·.2)).Nodup ∧ Gen.C24.checkpointPriorities.length ≥ 5 ∧
+    (checkpointOrder Gen.C24.checkpointPriorities).isSome = true := by decide
 
 /-! ## 3. reach certificate -/
 
